@@ -20,15 +20,19 @@ func (c *Client) Release() {
 	if c.res == nil {
 		return
 	}
+	// Release is done only once: resource can be already acquired by
+	// someone else when Release is called again.
+	res := c.res
+	c.res = nil
 
-	client := c.client()
+	client := res.Value().client
 
-	if client.IsClosed() || time.Since(c.res.CreationTime()) > c.p.options.MaxConnLifetime {
-		c.res.Destroy()
+	if client.IsClosed() || time.Since(res.CreationTime()) > c.p.options.MaxConnLifetime {
+		res.Destroy()
 		return
 	}
 
-	c.res.Release()
+	res.Release()
 }
 
 func (c *Client) Do(ctx context.Context, q ch.Query) (err error) {
